@@ -264,7 +264,12 @@ class TypeDirected:
         if k < 0.76:
             return tuple(self.any_value(d + 1) for _ in range(r.randrange(0, 3)))
         if k < 0.79:
-            return {r.choice([1, "a", "_type", None, 2.5, "_bytes"]) for _ in range(r.randrange(0, 3))}
+            # iteration order of a set with a str / None element depends on the interpreter's hash seed, and histories
+            # are replayed in other interpreters: several elements only where the order is seed-independent (numbers)
+            n_el = r.randrange(0, 3)
+            if n_el >= 2:
+                return set(r.sample([1, 2.5, 7, -3, 0.5], 2))
+            return {r.choice([1, "a", "_type", None, 2.5, "_bytes"]) for _ in range(n_el)}
         if k < 0.90:
             return {self.key(self.umd): self.any_value(d + 1) for _ in range(r.randrange(0, 4))}
         if k < 0.97 or self.strict:
